@@ -3669,10 +3669,12 @@ class NameCheckVisitor(node_visitor.ReplacingNodeVisitor):
                 op = positive_operator if positive else negative_operator
                 if isinstance(value, KnownValue):
                     try:
+                        # bool() inside the guard: a rich comparison result may not
+                        # have a truth value
                         if is_right:
-                            result = op(value.val, other_val)
+                            result = bool(op(value.val, other_val))
                         else:
-                            result = op(other_val, value.val)
+                            result = bool(op(other_val, value.val))
                     except Exception:
                         pass
                     else:
@@ -3695,7 +3697,7 @@ class NameCheckVisitor(node_visitor.ReplacingNodeVisitor):
             if isinstance(predicate_value, KnownValue):
                 operator = positive_operator if positive else negative_operator
                 try:
-                    result = operator(predicate_value.val, other_val)
+                    result = bool(operator(predicate_value.val, other_val))
                 except Exception:
                     pass
                 else:
